@@ -196,12 +196,15 @@ void family_publisher() {
         dsim::cell_add(OBS + 8, 1);
         if (k) sub_coro(s).join(); else while (s.next()) { s.value().check(); dsim::cell_add(SUM, 1); }
     });
+    bool two_publishers = dsim::flip();
+    std::thread pt2;
+    if (two_publishers) pt2 = std::thread([&pub, np] { for (long k = 1; k <= np; k++) pub.publish(Msg{1000 + k, (1000 + k) * 2, (1000 + k) * 3}); });
     std::thread pt([&pub, np, ns] {
         for (long k = 1; k <= np; k++) pub.publish(Msg{k, k * 2, k * 3});
         dsim::wait_cell(OBS + 8, ns);       // nobody inside subscribe() when the stream is closed (schedule constraint only)
-        pub.close();
     });
-    pt.join();
+    pt.join(); if (pt2.joinable()) pt2.join();
+    pub.close();
     for (auto &t : th) t.join();
 }
 
